@@ -40,6 +40,15 @@ def stepLine (u : Unit) (line : String) : Unit × String :=
         (u, showOut (process cfg ev (harnessSigner (sg == 2)) pr))
       | none => (u, "bad-op")
     | _, _, _, _, _, _, _, _, _, _, _ => (u, "bad-op")
+  | ["verifytext", doc] =>
+    match unhex doc with
+    | some b => (u, match verifyText (harnessSigner false) b with
+        | .verified => "verified" | .notSigned => "notSigned" | .malformed => "malformed" | .mismatch => "mismatch")
+    | none => (u, "bad-op")
+  | ["compact", doc] =>
+    match unhex doc with
+    | some b => (u, tohex (Evl.Json.compact b))
+    | none => (u, "bad-op")
   | ["verify", doc] =>
     match unhex doc with
     | some b => (u, match verify (harnessSigner false) b with
